@@ -3,7 +3,7 @@
 set -x
 sed -i "s#path = \"/repo\"#path = \"$VP_RUN_REPO\"#" harness/Cargo.toml harness-loom/Cargo.toml
 export VERIF_REPO=$VP_RUN_REPO
-python3 tools/extract.py && (cd lean && lake build 2>&1 | tail -2) && (cd harness && CARGO_NET_OFFLINE=true cargo build --release --offline 2>&1 | tail -1) && (cd harness-loom && CARGO_NET_OFFLINE=true cargo build --release --offline 2>&1 | tail -1)
+python3 tools/extract.py && RS2LEAN_NO_ELAB=1 python3 tools/rs2lean.py && (cd lean && lake build 2>&1 | tail -2) && (cd harness && CARGO_NET_OFFLINE=true cargo build --release --offline 2>&1 | tail -1) && (cd harness-loom && CARGO_NET_OFFLINE=true cargo build --release --offline 2>&1 | tail -1)
 for i in 01 02 03 04 05 06 07 08 09 10 11 12 13 16 17 18 19 20 14 15; do
   s=$(date +%s); ./check C$i --tier thorough > thorough_C$i.log 2>&1; rc=$?; e=$(date +%s)
   echo "THOROUGH C$i rc=$rc $((e-s))s $(tail -1 thorough_C$i.log | cut -c1-200)"
